@@ -114,7 +114,7 @@ func c16scenario(chance, stream int) *explore.Scenario {
 }
 
 func init() {
-	register(&Check{ID: "C16",
+	register(&Check{ID: "C16", ShardByScenario: true,
 		Scenarios: func(tier string) []*explore.Scenario {
 			var out []*explore.Scenario
 			// out-of-range values, including ones whose low 32 / 8 / 16 bits look like a valid chance
